@@ -8,10 +8,23 @@ Definition version_of (s : sx) : option version :=
 Definition version_sx (v : version) : sx :=
   match v with V1b1 => sym "b1" | V1b2 => sym "b2" | V1b3 => sym "b3" end.
 
-Definition pair_of_sx (s : sx) : option (bytes * bytes) :=
-  match s with SL [SB k; SB v] => Some (k, v) | _ => None end.
+(* (name value): http.Header.Add (canonicalises the key);
+   (name value raw): h[name] = append(h[name], value) - a caller-built map with a verbatim key *)
+Definition pair_of_sx (s : sx) : option (bytes * bytes * bool) :=
+  match s with
+  | SL [SB k; SB v] => Some (k, v, false)
+  | SL [SB k; SB v; _] => Some (k, v, true)
+  | _ => None
+  end.
 Definition headers_of_sx (s : sx) : option headers :=
-  match s with SL l => let? ps := omap pair_of_sx l in Some (hdr_of_pairs ps) | _ => None end.
+  match s with
+  | SL l =>
+      let? ps := omap pair_of_sx l in
+      Some (fold_left (fun (h : headers) (p : bytes * bytes * bool) =>
+                         if snd p then hdr_add_raw h (fst (fst p)) (snd (fst p))
+                         else hdr_add h (fst (fst p)) (snd (fst p))) ps [])
+  | _ => None
+  end.
 
 Definition hdr_lt (a b : bytes * list bytes) : bool := bytes_ltb (fst a) (fst b).
 Definition headers_sx (h : headers) : sx :=
@@ -154,6 +167,51 @@ Definition op_sxg_read_verify (args : list sx) : sx :=
   | _ => bad_args
   end.
 
+(* an edit of a parsed, in-memory exchange *)
+Definition apply_edit (e : exchange) (ed : sx) : option exchange :=
+  match ed with
+  | SL [t; SZ st] =>
+      if tag_is t "status" then
+        Some {| e_ver := e_ver e; e_uri := e_uri e; e_method := e_method e; e_reqh := e_reqh e; e_status := st;
+                e_resph := e_resph e; e_sig := e_sig e; e_payload := e_payload e; e_taint := e_taint e |}
+      else None
+  | SL [t; SB k; SB v] =>
+      if tag_is t "addresp" then
+        Some {| e_ver := e_ver e; e_uri := e_uri e; e_method := e_method e; e_reqh := e_reqh e; e_status := e_status e;
+                e_resph := hdr_add (e_resph e) k v; e_sig := e_sig e; e_payload := e_payload e; e_taint := e_taint e |}
+      else if tag_is t "addreq" then
+        Some {| e_ver := e_ver e; e_uri := e_uri e; e_method := e_method e; e_reqh := hdr_add (e_reqh e) k v;
+                e_status := e_status e; e_resph := e_resph e; e_sig := e_sig e; e_payload := e_payload e; e_taint := e_taint e |}
+      else None
+  | SL [t; SB v] =>
+      if tag_is t "method" then
+        Some {| e_ver := e_ver e; e_uri := e_uri e; e_method := v; e_reqh := e_reqh e; e_status := e_status e;
+                e_resph := e_resph e; e_sig := e_sig e; e_payload := e_payload e; e_taint := e_taint e |}
+      else if tag_is t "payload" then
+        Some {| e_ver := e_ver e; e_uri := e_uri e; e_method := e_method e; e_reqh := e_reqh e; e_status := e_status e;
+                e_resph := e_resph e; e_sig := e_sig e; e_payload := v; e_taint := e_taint e |}
+      else None
+  | _ => None
+  end.
+
+(* sxg_read_edit_verify bytes (edits) tsec tnsec statustab fetchtab x509tab sigtab:
+   ReadExchange, then edit the parsed exchange, then Verify *)
+Definition op_sxg_read_edit_verify (args : list sx) : sx :=
+  match args with
+  | [SB bs; SL eds; SZ tsec; SZ tnsec; SL sk; SL ft; SL xt; SL st] =>
+      match read bs with
+      | Ok e0 =>
+          match fold_left (fun acc ed => match acc with Some e => apply_edit e ed | None => None end) eds (Some e0) with
+          | Some e =>
+              let known := fun code => existsb (fun s => match s with SL [SZ c; SZ b] => (c =? code)%Z && negb (b =? 0)%Z | _ => false end) sk in
+              verdict_sx (verify sha256 (x509_of xt) (sig_of st) known (fetch_of ft) e tsec tnsec)
+          | None => bad_args
+          end
+      | _ => SL [sym "invalid"]
+      end
+  | _ => bad_args
+  end.
+
 Definition op_bigendian (args : list sx) : sx :=
   match args with
   | [SZ n; SZ size] => sx_bytes_R (be_encode n (Z.to_N size))
@@ -183,6 +241,7 @@ Definition dispatch_sxg (op : bytes) (args : list sx) : option sx :=
   else if bytes_eqb op (s2b "sxg_sigheader") then Some (op_sxg_sigheader args)
   else if bytes_eqb op (s2b "sxg_verify") then Some (op_sxg_verify args)
   else if bytes_eqb op (s2b "sxg_read_verify") then Some (op_sxg_read_verify args)
+  else if bytes_eqb op (s2b "sxg_read_edit_verify") then Some (op_sxg_read_edit_verify args)
   else if bytes_eqb op (s2b "bigendian") then Some (op_bigendian args)
   else if bytes_eqb op (s2b "url") then Some (op_url args)
   else None.
